@@ -89,6 +89,16 @@ func driveFCall(c *Ctx) error {
 				px := f.Proxy()
 				call = func(a []cty.Value) (cty.Value, error) { return px(a...) }
 			}
+			// the parameter descriptions handed out by the accessors are the caller's to change
+			for i, p := range f.Params() {
+				ps := f.Params()
+				ps[i].AllowNull, ps[i].AllowUnknown, ps[i].AllowDynamicType, ps[i].AllowMarked = !p.AllowNull, !p.AllowUnknown, !p.AllowDynamicType, !p.AllowMarked
+				ps[i].Type = cty.DynamicPseudoType
+			}
+			if vp := f.VarParam(); vp != nil {
+				vp.AllowNull, vp.AllowUnknown, vp.AllowDynamicType, vp.AllowMarked = !vp.AllowNull, !vp.AllowUnknown, !vp.AllowDynamicType, !vp.AllowMarked
+				vp.Type = cty.DynamicPseudoType
+			}
 			args := concretizeArgs(asL(aj), 0)
 			ev := J{"ev": "fcall", "spec": sj, "args": projectArgs(args)}
 			// the call
